@@ -145,8 +145,8 @@ def run(ctx):
             snap_name = snap_ok[0].targets[0].id if snap_ok and isinstance(snap_ok[0].targets[0], ast.Name) else None
             calls = [n for n in ast.walk(lp) if isinstance(n, ast.Call) and isinstance(n.func, ast.Name) and n.func.id in ("adjacency_matrix", "adjacency_matrix_by_order")]
             res.check(bool(calls) and all(c.args and norm(c.args[0]) == snap_name for c in calls), "T-SNAP", f, norm(calls[0]) if calls else "adjacency_matrix(hypergraph_t)", "matrix-of-snapshot", "the matrix is not computed from the snapshot of the loop's time", loc(v.fi, lp))
-            stores = [n for n in ast.walk(lp) if isinstance(n, ast.Assign) and isinstance(n.targets[0], ast.Subscript) and isinstance(n.targets[0].slice, ast.Name)]
-            res.check(bool(stores) and all(s.targets[0].slice.id == t for s in stores), "T-SNAP", f, norm(stores[0]) if stores else f"result[{t}] = adj_t", "keyed-by-t", "a snapshot matrix / mapping is stored under another key than its time", loc(v.fi, lp))
+            stores = [n for n in ast.walk(lp) if isinstance(n, ast.Assign) and isinstance(n.targets[0], ast.Subscript) and isinstance(n.targets[0].value, ast.Name)]
+            res.check(bool(stores) and all(isinstance(s.targets[0].slice, ast.Name) and s.targets[0].slice.id == t for s in stores), "T-SNAP", f, norm(stores[0]) if stores else f"result[{t}] = adj_t", "keyed-by-t", "a snapshot matrix / mapping is stored under another key than its time", loc(v.fi, lp))
         if not found:
             raise AnalysisError(f"{f}: loop over snapshot times not recognised")
     res.assumptions += [
